@@ -935,7 +935,7 @@ def run_history(arg):
         adapters.append(m.bind(b["server"], b["script"], url_scheme=b["scheme"]))
 
     cur = None
-    for op in ops:
+    for opno, op in enumerate(ops):
         k = op[0]
         before = {id(o) for o in m._rules}
         if k == "add":
@@ -960,7 +960,7 @@ def run_history(arg):
                 segs.append(cur)
             ln = run_case(base, adapters[op[3] if op[3] < len(adapters) else -1], objs, op[1], op[2], NOQ, follow=False)
             ln["i"] = len(cur) - 1
-            ln["opno"] = ops.index(op)
+            ln["opno"] = opno
             cur.append(ln)
         elif k == "build" and recs:
             if not adapters:
